@@ -288,7 +288,17 @@ fn c04_one(inp: &Input, always_log: bool, sample: u64) -> C04Out {
                 None => rebuild_err = "panic".into(),
             }
         } else {
-            rebuild_ok = true;
+            // sub-parsers: the "builder" of a property is its constructor
+            let r = match inp.k.as_str() {
+                "x-prop" => pn.run("rebuild", || pk::mk_prop(&fields["q"]).map(|_| ())),
+                "x-props" => pn.run("rebuild", || pk::mk_props(&fields["ps"]).map(|_| ())),
+                _ => Some(Ok(())),
+            };
+            match r {
+                Some(Ok(())) => rebuild_ok = true,
+                Some(Err(msg)) => rebuild_err = msg,
+                None => rebuild_err = "panic".into(),
+            }
         }
     }
     let panicked = !pn.0.is_empty();
@@ -548,6 +558,7 @@ fn main() {
             let mut built = 0u64;
             let mut panics = 0u64;
             let mut by_kind: BTreeMap<String, (u64, u64)> = BTreeMap::new();
+            let mut cells: BTreeMap<String, u64> = BTreeMap::new();
             for (v, l) in vectors.iter().zip(lines.iter()) {
                 let kk = format!("{} {} w{}", v["p"]["k"].as_str().unwrap_or(""), v["p"]["v"].as_str().unwrap_or(""), v["p"]["w"]);
                 let e = by_kind.entry(kk).or_default();
@@ -555,13 +566,28 @@ fn main() {
                 if l.contains("\"built\":true") {
                     built += 1;
                     e.1 += 1;
+                    // which (location, property) cells were carried by a packet the builder accepted
+                    let p = &v["p"];
+                    if p["v"].as_str() == Some("v50") {
+                        let k = p["k"].as_str().unwrap_or("");
+                        let lists: Vec<(&str, &Value)> = match k {
+                            "puback" | "pubrec" | "pubrel" | "pubcomp" | "disconnect" | "auth" => vec![(k, &p["props"][0])],
+                            "connect" => vec![("connect", &p["props"]), ("will", &p["will"][0]["props"])],
+                            _ => vec![(k, &p["props"])],
+                        };
+                        for (loc, ps) in lists {
+                            for q in ps.as_array().cloned().unwrap_or_default() {
+                                *cells.entry(format!("{}:{}", loc, q["id"])).or_default() += 1;
+                            }
+                        }
+                    }
                 }
                 if !l.contains("\"panic\":\"\"") {
                     panics += 1;
                 }
             }
             write_flat(&out, &lines).expect("write");
-            println!("{}", json!({"vectors": vectors.len(), "built": built, "panics": panics, "by_kind": by_kind}));
+            println!("{}", json!({"vectors": vectors.len(), "built": built, "panics": panics, "by_kind": by_kind, "cells": cells}));
         }
         "c04" => {
             let mut stats = Stats::default();
